@@ -293,4 +293,47 @@ top("std::vector<unsigned int>", "vecu32", 4, False, "E_InvalidContainerLength")
 top("std::vector<unsigned char>", "vecu8", 1, False, "E_InvalidContainerLength")
 top("std::basic_string<char>", "str", 1, True, "E_InvalidStringLength")
 top("std::basic_string<wchar_t>", "wstr", 4, True, "E_InvalidStringLength")
+
+# =========================================================================================================
+# Serializer level (C06): SerializerCommon::Write = Prepare(Size(value)) + Encoding<T>::Write, with Size, Prepare and
+# Write REPLACED by their contracts: a sink with room for GetSize bytes never refuses the value, exactly GetSize bytes are
+# written, and a sink that is too small refuses in Prepare before anything is written.
+out.append("contract vt::SpecWriter::Prepare(unsigned long)\n"
+  "  requires SW_PRE(this)\n"
+  "  assigns this->failed, this->calls\n"
+  "  ensures this->calls == OLD(this->calls) + 1\n"
+  "  ensures ERR(RET) == 0 ==> (this->failed == 0 && size <= this->cap - this->pos)\n"
+  "  ensures ERR(RET) != 0 ==> this->failed == ERR(RET)\n"
+  "  ensures OLD(this->fail_at) == OLD(this->calls) ==> ERR(RET) == this->fail_code\n"
+  "  ensures (OLD(this->fail_at) != OLD(this->calls) && size <= this->cap - this->pos) ==> ERR(RET) == 0\n"
+  "  ensures (OLD(this->fail_at) != OLD(this->calls) && size > this->cap - this->pos) ==> ERR(RET) == E_WriteLimitReached\n")
+out.append("job vm_fn_spec_prepare\n  props C06\n  enforce vt::SpecWriter::Prepare(unsigned long)\n")
+def ser(cxx, tag, es, is_string):
+    term = es if is_string else 0
+    LB = "(value->size_ * %d)" % es
+    TOT = "(1 + vt_dl + %s)" % LB
+    skey = "nop::Encoding<%s>::Size" % cxx
+    out.append("contract %s\n  requires FRESH(value) && value->size_ <= (1UL << 36)\n  assigns\n  ensures RET == 1 + VT_LEN_UINT(%s) + %s\n" % (skey, LB, LB))
+    out.append("job vm_fn_size_%s\n  props C06 C03\n  enforce %s\n" % (tag, skey))
+    key = "nop::SerializerCommon::Write<%s, vt::SpecWriter>" % cxx
+    wkey = "nop::EncodingIO<%s>::Write<vt::SpecWriter>" % cxx
+    cl = ["requires SW_PRE(writer) && FRESH(value) && value->size_ <= (1UL << 36) && FRESHN(value->data_, value->size_ * %d + %d)" % (es, term),
+          "requires vt_n == value->size_ && vt_dl == VT_LEN_UINT(%s)" % LB,
+          "assigns %s <= writer->cap - writer->pos: __CPROVER_object_upto(writer->dst + writer->pos, %s)" % (TOT, TOT),
+          "assigns writer->pos, writer->failed, writer->calls, writer->writes",
+          "ensures writer->pos <= writer->cap",
+          "ensures ERR(RET) == 0 ==> (writer->failed == 0 && %s >= %s && writer->pos == OLD(writer->pos) + %s)" % (ROOM, TOT, TOT),
+          "ensures (ERR(RET) == 0 && vt_k2 < %s) ==> writer->dst[OLD(writer->pos) + 1 + vt_dl + vt_k2] == ((const unsigned char*)value->data_)[vt_k2]" % LB,
+          "ensures ERR(RET) != 0 ==> writer->failed == ERR(RET)",
+          "ensures (%s && %s >= %s) ==> ERR(RET) == 0" % (wnofault(5), ROOM, TOT),
+          "ensures (%s && %s < %s) ==> (ERR(RET) == E_WriteLimitReached && writer->pos == OLD(writer->pos) && writer->writes == OLD(writer->writes))" % (wnofault(5), ROOM, TOT),
+          "ensures (OLD(writer->fail_at) == OLD(writer->calls)) ==> (ERR(RET) == writer->fail_code && writer->writes == OLD(writer->writes))"]
+    out.append("contract %s\n%s" % (key, "".join("  %s\n" % c for c in cl)))
+    out.append("job vm_fn_serialize_%s\n  props C06 C10\n  pre vt_dl = nondet_ulong(); vt_n = nondet_ulong(); vt_k = nondet_ulong(); vt_k2 = nondet_ulong();\n"
+               "  enforce %s\n  replace %s\n  replace vt::SpecWriter::Prepare(unsigned long)\n  replace %s\n  timeout 1800\n"
+               "  note unbounded: GetSize bytes of room always suffice and exactly GetSize bytes are written; a Write whose Prepare fails writes nothing\n" % (tag, key, skey, wkey))
+ser("std::vector<unsigned int>", "vecu32", 4, False)
+ser("std::vector<unsigned char>", "vecu8", 1, False)
+ser("std::basic_string<char>", "str", 1, True)
+ser("std::basic_string<wchar_t>", "wstr", 4, True)
 print("\n".join(out))
